@@ -20,7 +20,7 @@ def gen_request(rng, idx: int, opts: dict) -> dict:
     method = rng.choice(METHODS[:4]) if kind not in ("head", "ws") else ("HEAD" if kind == "head" else "GET")
     if rng.random() < 0.15 and kind in ("plain", "body_cl"):
         method = rng.choice(METHODS)
-    target = rng.choice(TARGETS)
+    target = rng.choice(opts.get("targets") or TARGETS)      # a property may bring its own pool of request targets
     if target == "*" and method != "OPTIONS":
         target = "/star"
     headers = [["Host", "x"]]
